@@ -160,6 +160,15 @@ Definition set_cls (st : state) (si : nat) (c : cls) : state :=
   {| st_stores := upd_nth si (fun s => {| s_cls := c; s_alg := s_alg s; s_objs := s_objs s |}) (st_stores st);
      st_next := st_next st |}.
 
+(* bit rot / an editor: the content of the inode changes, every name of it sees the new bytes;
+   the mode stays *)
+Definition rot_obj (i : N) (b : list N) (o : obj) : obj :=
+  if o_ino o =? i then {| o_bytes := b; o_mode := o_mode o; o_ino := o_ino o |} else o.
+Definition rot_ino (i : N) (b : list N) (st : state) : state :=
+  {| st_stores := map (fun s => with_objs s (map (fun p => (fst p, rot_obj i b (snd p))) (s_objs s)))
+                      (st_stores st);
+     st_next := st_next st |}.
+
 Definition store_has (st : state) (si : nat) (k : oid) : bool :=
   match get_store st si with Some s => ahas k (s_objs s) | None => false end.
 
@@ -197,10 +206,11 @@ Inductive op :=
 | OStage (si : nat) (w : work)
 | OStageUpload (si : nat) (w : work)
 | OAdd (si : nat) (b : list N) (k : oid)
-| OTransfer (src dst : nat) (ids : list oid) (shallow : bool)
+| OTransfer (src dst : nat) (ids : list oid) (shallow : bool) (verify : bool)
 | OSaveIndex (si : nat) (dirs : list key) (files : list (key * list N * oid))
 | OMigrate (src dst : nat) (order : list oid) (hard : bool)
-| OReopen (si : nat) (c : cls).              (* the same directory opened under the other store class *)
+| OReopen (si : nat) (c : cls)               (* the same directory opened under the other store class *)
+| ORot (si : nat) (k : oid) (b : list N).    (* NOT a dvc-data operation: the bytes of an object change on disk *)
 
 Section WithDigest.
 Variable H : alg -> list N -> oid.
@@ -268,6 +278,23 @@ Definition check_obj (st : state) (si : nat) (k : oid) : state :=
 Definition check_all (st : state) (si : nat) (ks : list oid) : state :=
   fold_left (fun s k => check_obj s si k) ks st.
 
+(* HashFileDB.add(..., verify=True), the post-add loop: every arrived object is checked - it was
+   just copied (mode 0o644), so a local-class store does hash it - and a mismatch is removed
+   ("dropped by verification: it did not arrive", reported through on_error); a match is protected *)
+Definition verify_one (st : state) (si : nat) (k : oid) : state :=
+  match get_store st si with
+  | Some s =>
+      match alookup k (s_objs s) with
+      | Some o => if list_N_eqb (stem (H (s_alg s) (o_bytes o))) (stem k)
+                  then protect_one st si k else del_obj st si k
+      | None => st
+      end
+  | None => st
+  end.
+Definition add_copy_v (st : state) (si : nat) (items : list (oid * list N)) : state :=
+  let st1 := fold_left (fun s it => put_new s si (fst it) (snd it)) items st in
+  fold_left (fun s it => verify_one s si (fst it)) items st1.
+
 (* the (oid, bytes) pairs of the ids the source really holds *)
 Definition items_of (src : oid -> option (list N)) (ks : list oid) : list (oid * list N) :=
   flat_map (fun k => match src k with Some b => [(k, b)] | None => [] end) ks.
@@ -289,7 +316,7 @@ Definition expand (a : alg) (src : oid -> option (list N)) (ids : list oid) (sha
    status queries left: what is to be copied - (file objects, directory objects) - or the exception.
    [a]: hash_name of the source odb; [src]: its objects.  (status.py assumes that a memfs staging
    source holds every id; build() put every id it requests there, so looking them up is the same.) *)
-Definition transfer_plan (a : alg) (src : oid -> option (list N))
+Definition transfer_plan (a : alg) (src : oid -> option (list N)) (vf : option alg)
            (st : state) (dst : nat) (all : list oid)
   : (list (oid * list N) * list (oid * list N)) + N :=
   let dst_exists := filter (store_has st dst) all in
@@ -303,22 +330,31 @@ Definition transfer_plan (a : alg) (src : oid -> option (list N))
   match load_all a src new_dirs with
   | inr _ => inr 10                                   (* assert dir_obj *)
   | inl loaded =>
-      let send := filter (fun de => negb (existsb (fun k => mem k missing) (snd de))) loaded in
+      (* verify=True ([vf] = the destination's algorithm): a new file whose bytes do not hash to its
+         id is dropped on arrival and counts as failed; a directory listing it is withheld *)
+      let failed k := match vf, src k with
+                      | Some a', Some b => mem k new_files && negb (list_N_eqb (stem (H a' b)) (stem k))
+                      | _, _ => false
+                      end in
+      let send := filter (fun de => negb (existsb (fun k => mem k missing || failed k) (snd de))) loaded in
       inl (items_of src new_files, items_of src (map fst send))
   end.
 
 (* dest.add(..., check_exists=False): the file objects in one call, then every directory object
    whose listed files are all on one of the two sides *)
-Definition apply_plan (st : state) (dst : nat) (p : list (oid * list N) * list (oid * list N)) : state :=
-  let st1 := match fst p with [] => st | _ => add_copy st dst (fst p) false end in
-  fold_left (fun s it => add_copy s dst [it] false) (snd p) st1.
+Definition add_new (verify : bool) (st : state) (dst : nat) (items : list (oid * list N)) : state :=
+  if verify then add_copy_v st dst items else add_copy st dst items false.
+Definition apply_plan (verify : bool) (st : state) (dst : nat)
+           (p : list (oid * list N) * list (oid * list N)) : state :=
+  let st1 := match fst p with [] => st | _ => add_new verify st dst (fst p) end in
+  fold_left (fun s it => add_new verify s dst [it]) (snd p) st1.
 
 (* transfer(src, dest, ids, shallow): status(dest) checks every id (a local destination verifies
    and protects what it holds unprotected); if something is missing there, status(src) does the
    same on a real source store ([src_idx]; a staging source is memfs and not queried); then the
    new objects are added.  [srcf st]: the source's objects in state [st]. *)
 Definition transfer_core (a : alg) (srcf : state -> oid -> option (list N)) (src_idx : option nat)
-           (st : state) (dst : nat) (ids : list oid) (shallow : bool) : state * N :=
+           (verify : bool) (st : state) (dst : nat) (ids : list oid) (shallow : bool) : state * N :=
   match expand a (srcf st) ids shallow with
   | inr c => (st, c)
   | inl all =>
@@ -327,9 +363,10 @@ Definition transfer_core (a : alg) (srcf : state -> oid -> option (list N)) (src
       | [] => (st1, 0)
       | _ :: _ =>
           let st2 := match src_idx with Some i => check_all st1 i all | None => st1 end in
-          match transfer_plan a (srcf st2) st2 dst all with
+          let vf := if verify then option_map s_alg (get_store st2 dst) else None in
+          match transfer_plan a (srcf st2) vf st2 dst all with
           | inr c => (st2, c)
-          | inl p => (apply_plan st2 dst p, 0)
+          | inl p => (apply_plan verify st2 dst p, 0)
           end
       end
   end.
@@ -356,19 +393,19 @@ Definition stage (st : state) (si : nat) (w : work) : state * N :=
       match w with
       | WFile b =>
           let k := H a b in
-          transfer_core a (fun _ => refs_lookup [(k, b)]) None st si [k] false
+          transfer_core a (fun _ => refs_lookup [(k, b)]) None false st si [k] false
       | WDir files =>
           let hashed := map (fun kb => (fst kb, H a (snd kb), snd kb)) files in
           let listing := listing_of a (map (fun x => (fst (fst x), snd (fst x))) hashed) in
           let d := dir_oid_of listing in
           let refs := map (fun x => (snd (fst x), snd x)) hashed ++ [(d, listing)] in
           match a with
-          | Md5 => transfer_core a (fun _ => refs_lookup refs) None st si [d] false
+          | Md5 => transfer_core a (fun _ => refs_lookup refs) None false st si [d] false
           | _ =>
               (* _build_external_tree_info: the listing goes straight into the destination under
                  its md5 name, is re-hashed with the odb's algorithm and requested under that *)
               let st1 := add_copy st si [(d, listing)] true in
-              transfer_core a (fun _ => refs_lookup refs) None st1 si [H a listing ++ dot_dir] false
+              transfer_core a (fun _ => refs_lookup refs) None false st1 si [H a listing ++ dot_dir] false
           end
       end
   end.
@@ -397,11 +434,11 @@ Definition add_ext (st : state) (si : nat) (b : list N) (k : oid) : state * N :=
 Definition store_bytes (st : state) (si : nat) (k : oid) : option (list N) :=
   match get_store st si with Some s => option_map o_bytes (alookup k (s_objs s)) | None => None end.
 
-Definition transfer_op (st : state) (src dst : nat) (ids : list oid) (shallow : bool) : state * N :=
+Definition transfer_op (st : state) (src dst : nat) (ids : list oid) (shallow verify : bool) : state * N :=
   match get_store st src, get_store st dst with
   | Some s, Some _ =>
       if Nat.eqb src dst then (st, 0)                         (* src == dest *)
-      else transfer_core (s_alg s) (fun st' k => store_bytes st' src k) (Some src) st dst ids shallow
+      else transfer_core (s_alg s) (fun st' k => store_bytes st' src k) (Some src) verify st dst ids shallow
   | _, _ => (st, 99)
   end.
 
@@ -449,10 +486,15 @@ Definition step_op (st : state) (o : op) : state * N :=
   | OStage si w => stage st si w
   | OStageUpload si w => stage_upload st si w
   | OAdd si b k => add_ext st si b k
-  | OTransfer src dst ids sh => transfer_op st src dst ids sh
+  | OTransfer src dst ids sh vf => transfer_op st src dst ids sh vf
   | OSaveIndex si dirs files => save_index st si dirs files
   | OMigrate src dst order hard => migrate_op st src dst order hard
   | OReopen si c => (set_cls st si c, 0)
+  | ORot si k b =>
+      (match get_store st si with
+       | Some s => match alookup k (s_objs s) with Some o => rot_ino (o_ino o) b st | None => st end
+       | None => st
+       end, 0)
   end.
 
 (* ---- the caller's obligations (WfOp of Proofs/StoreOpsProofs.v), as a boolean ---- *)
@@ -474,7 +516,7 @@ Definition wf_op_b (st : state) (o : op) : bool :=
       end
   | OAdd si b k =>
       match get_store st si with Some s => named_ok_b (s_alg s) k b | None => true end
-  | OTransfer src dst _ _ =>
+  | OTransfer src dst _ _ _ =>
       match get_store st src, get_store st dst with
       | Some s, Some d => alg_eqb (s_alg s) (s_alg d)
       | _, _ => true
@@ -487,6 +529,7 @@ Definition wf_op_b (st : state) (o : op) : bool :=
       end
   | OMigrate _ _ _ _ => true
   | OReopen _ _ => true
+  | ORot _ _ _ => false                       (* not an operation of dvc-data *)
   end.
 
 (* a sufficient boolean test for "the invariant is violated": some object is filed under a name
